@@ -82,6 +82,20 @@ def finding_libraries():
     return [mixed, strbool]
 
 
+def directed_libraries():
+    """fixed libraries (run on every check): overloads that Lua cannot tell apart by argument type (one number type),
+    where a later overload has default arguments -- its shorter call forms are still reachable."""
+    same = dict(funcs=[dict(name="fq", params=[("int", False), ("int", False)], ret="int", method=False, ctor=False),
+                       dict(name="fq", params=[("double", False), ("double", True)], ret="int", method=False, ctor=False),
+                       dict(name="fq", params=[("string", False)], ret="int", method=False, ctor=False),
+                       dict(name="fr", params=[("long", False), ("int", False)], ret="double", method=False, ctor=False),
+                       dict(name="fr", params=[("double", False), ("double", True), ("double", True)], ret="double", method=False, ctor=False)],
+                cls=[dict(name="Cls", params=[], ret=None, method=False, ctor=True),
+                     dict(name="mq", params=[("int", False)], ret="int", method=True, ctor=False),
+                     dict(name="mq", params=[("double", False), ("int", True)], ret="int", method=True, ctor=False)], idx=910)
+    return [same]
+
+
 DEFAULTS = {"int": "7", "long": "8", "double": "2.5", "bool": "true", "string": '"dflt"'}
 RETVAL = {"int": "41", "double": "1.25", "bool": "true", "string": 'std::string("res")'}
 
@@ -321,7 +335,7 @@ def run(ctx):
     quick = ctx.tier == "quick"
     nlibs = 16 if quick else 120
     from concurrent.futures import ThreadPoolExecutor
-    libs = [gen_library(ctx.rng, i) for i in range(nlibs)] + finding_libraries()
+    libs = directed_libraries() + [gen_library(ctx.rng, i) for i in range(nlibs)] + finding_libraries()
 
     def one(lib):
         exe, err = build(ctx, lib, "L%d" % lib["idx"])
